@@ -310,3 +310,21 @@ def reorder(spec, state_order=None, choice_order=None, function_order=None):
     if function_order is not None:
         new.functions = {k: spec.functions[k] for k in function_order}
     return new
+
+
+def twin(spec):
+    """A model with exactly the same names, signatures, grids and parameter structure but
+    different table contents (float tables shifted, int/bool tables rotated) and parameter
+    values: used to detect state leaking between models (caches keyed on names)."""
+    new = spec.copy()
+    for k, a in spec.consts.items():
+        a = np.asarray(a)
+        if a.dtype.kind == "f":
+            new.consts[k] = a * 0.5 + 0.37
+        else:
+            new.consts[k] = np.roll(a.reshape(-1), 1).reshape(a.shape)
+    for k, d in spec.params.items():
+        if isinstance(d, dict) and k != "shocks":
+            new.params[k] = {kk: float(v) * 1.7 + 0.11 for kk, v in d.items()}
+    new.params["beta"] = float(spec.params["beta"]) * 0.9
+    return new
